@@ -270,7 +270,9 @@ func init() {
 		}
 		c := a[0].(VPtr).C
 		for mutexHeld[c] {
+			mutexWaiters[c]++
 			e.blockedStep("on a held mutex")
+			mutexWaiters[c]--
 		}
 		mutexHeld[c] = true
 		return nil
@@ -279,8 +281,11 @@ func init() {
 		if len(e.coros) == 0 {
 			return nil
 		}
-		delete(mutexHeld, a[0].(VPtr).C)
-		e.progress++
+		c := a[0].(VPtr).C
+		delete(mutexHeld, c)
+		if mutexWaiters[c] > 0 {
+			e.progress++ // someone can go on now (a lock/unlock pair by itself is not progress)
+		}
 		return nil
 	}
 	intrinsics["(*sync.Mutex).TryLock"] = func(e *Exec, a []Value) Value {
@@ -474,6 +479,7 @@ func init() {
 
 var onceDone = map[*Cell]bool{}
 var mutexHeld = map[*Cell]bool{}
+var mutexWaiters = map[*Cell]int{}
 
 // strings.Builder with concrete contents (shadow state, reset per path together with onceDone)
 var builders = map[*Cell]string{}
